@@ -134,19 +134,13 @@ Definition job_append (j : slab) (bs : list byte) : option slab :=
   if udp_buf_size <? N.of_nat (s_leaselen j + length bs) then None   (* append would reallocate: not this path *)
   else Some (set_leaselen (set_tx j (write_at (s_tx j) (s_leaselen j) (tag (s_lease j) bs))) (s_leaselen j + length bs)).
 
-(* wire.ParseHeader + acceptHeader (hand model; dns.OpcodeQuery = 0, dns.OpcodeNotify = 4) *)
+(* wire.ParseHeader + server.acceptHeader: the TRANSLATED source functions (Gen/C10.v:
+   go_ParseHeader, go_acceptHeader with wire.Header.QR / Opcode), not a hand model *)
 Definition nthb (l : list byte) (i : nat) : byte := nth i l 0.
 Definition be16 (l : list byte) (i : nat) : N := nthb l i * 256 + nthb l (S i).
 Definition accept_verdict (rx : list byte) : option N :=
-  if N.of_nat (length rx) <? wire_header_len then None
-  else
-    let flags := be16 rx 2 in
-    if N.testbit flags 15 then Some accept_ignore
-    else let op := N.land (N.shiftr flags 11) 15 in
-         if negb (op =? 0) && negb (op =? 4) then Some accept_notimp
-         else if negb (be16 rx 4 =? 1) || (1 <? be16 rx 6) || (1 <? be16 rx 8) || (2 <? be16 rx 10)
-              then Some accept_formerr
-              else Some accept_ok.
+  let '(h, ok) := go_ParseHeader rx in
+  if ok then Some (go_acceptHeader h) else None.
 (* func (j *udpJob) rejectInPlace(verdict): dns.RcodeFormatError = 1, dns.RcodeNotImplemented = 4 *)
 Definition reject_bytes (rx : list byte) (notimp : bool) : list byte :=
   let b2 := nthb rx 2 in
